@@ -284,7 +284,7 @@ func checkC02(r *vt.Run) {
 		masterFirst bool
 		stride      int
 	}
-	cfgs := []cfg{{3, false, 1, true, true, 16}}
+	cfgs := []cfg{{3, false, 1, true, true, 6}}
 	if r.Thorough() {
 		cfgs = []cfg{{3, false, 1, true, true, 2}, {3, false, 1, true, false, 8}, {2, false, 1, true, true, 8}, {4, false, 2, true, true, 8},
 			{3, true, 1, true, true, 8}, {3, false, 1, false, true, 16}, {4, true, 2, true, false, 16}}
